@@ -58,12 +58,34 @@ func (txEngine) Generate(prop string, r *simrt.RNG, tier string, run int) *simrt
 		case 2:
 			// peer block on the current tip: I=[poison kind (0 none,1 replay,2 bad-set), salt, ntx]
 			nonce += 10
-			sc.Ops = append(sc.Ops, simrt.Op{K: "peerblk", I: []int64{int64(r.Weighted(3, 2, 2, 2)), int64(r.Intn(1000)), int64(r.Range(1, 3)), nonce}})
+			sc.Ops = append(sc.Ops, simrt.Op{K: "peerblk", I: []int64{int64(r.Weighted(3, 2, 2, 2, 2)), int64(r.Intn(1000)), int64(r.Range(1, 3)), nonce}})
 		case 3:
 			// heavier sibling branch from depth d below the tip: I=[depth, len, poison, salt, nonce]
 			nonce += 20
 			sc.Ops = append(sc.Ops, simrt.Op{K: "fork", I: []int64{int64(r.Range(1, 3)), int64(r.Range(1, 3)), int64(r.Weighted(3, 2, 2, 2)), int64(r.Intn(1000)), nonce}})
 		}
+	}
+	// The block cache is a tuning knob; the replay protection must not depend on
+	// it being larger than the height-bound window.
+	sc.Knobs["cache"] = []int64{1, 2, 3, 128, 128}[r.Intn(5)]
+	// clean restarts: replay protection that lives in memory is rebuilt from disk
+	if r.Chance(1, 3) {
+		for k, m := 0, r.Range(1, 2); k < m; k++ {
+			at := r.Range(len(sc.Ops)/3, len(sc.Ops))
+			sc.Ops = append(sc.Ops[:at:at], append([]simrt.Op{{K: "restart"}}, sc.Ops[at:]...)...)
+		}
+	}
+	if r.Chance(1, 3) {
+		// directed: a height-bound transaction gets on the chain, the chain grows by a
+		// few blocks (still inside the window), the node restarts, the transaction comes again
+		nonce += 50
+		sc.Ops = append(sc.Ops, simrt.Op{K: "tx", I: []int64{txHeightOK, int64(r.Intn(NAccounts)), int64(r.Intn(NAccounts)), 11, nonce, 0}},
+			simrt.Op{K: "wait", I: []int64{3000}})
+		for k, m := 0, r.Range(1, 3); k < m; k++ {
+			nonce += 10
+			sc.Ops = append(sc.Ops, simrt.Op{K: "peerblk", I: []int64{0, 3 * int64(r.Intn(300)), 1, nonce}})
+		}
+		sc.Ops = append(sc.Ops, simrt.Op{K: "restart"}, simrt.Op{K: "replaylast", I: []int64{int64(r.Intn(4))}}, simrt.Op{K: "wait", I: []int64{3000}})
 	}
 	sc.Ops = append(sc.Ops, simrt.Op{K: "wait", I: []int64{5000}})
 	return sc
@@ -102,14 +124,17 @@ func (txEngine) run(ctx *simrt.Ctx) *simrt.Violation {
 	time.Sleep(3 * 365 * 24 * time.Hour)
 	gtime := time.Now().Unix() - 3600
 	edit := func(s string) string {
+		s = replaceOnce(s, "defCacheSize=128", fmt.Sprintf("defCacheSize=%d", sc.Knob("cache", 128)))
 		return replaceOnce(s, "[blockchain]", fmt.Sprintf("[blockchain]\nhighAllowPackHeight=%d\nlowAllowPackHeight=%d", high, low))
 	}
 	w := NewWorld(ctx, "fac-"+uid, simnode.Opts{GenesisTime: gtime, EditToml: edit})
 	defer w.Fac.Close()
 	defer w.Fac.Disk.Remove()
 	sut := simnode.New(simnode.Opts{ID: "sut-" + uid, GenesisTime: gtime, EditToml: edit})
-	defer sut.Close()
+	defer func() { sut.Close() }()
 	defer sut.Disk.Remove()
+	nrestart := 0
+	var lastHeightBound *types.Transaction
 	simrt.Settle()
 	time.Sleep(2 * time.Second)
 	cfg := sut.Cfg
@@ -289,6 +314,9 @@ func (txEngine) run(ctx *simrt.Ctx) *simrt.Violation {
 			} else {
 				tx = mkTx(kind, int(op.Int(1)), int(op.Int(2)), op.Int(3), op.Int(4), op.Int(5))
 				sent = append(sent, tx)
+				if kind == txHeightOK {
+					lastHeightBound = tx
+				}
 			}
 			if _, isBad := bad[string(tx.Hash())]; isBad || kind == txDupEarlier || kind == txExpHeight || kind == txExpTime || kind == txHeightOut {
 				ctx.Probe("offered_bad")
@@ -296,6 +324,46 @@ func (txEngine) run(ctx *simrt.Ctx) *simrt.Violation {
 			_, err := sut.API.SendTx(tx)
 			ctx.Logf("tx kind=%d hash=%x -> %v", kind, tx.Hash()[:4], err)
 			simrt.Settle()
+		case "restart":
+			time.Sleep(time.Second)
+			simrt.Settle()
+			tipBefore := lastHash(sut)
+			disk := sut.Disk
+			sut.Close()
+			simrt.Settle()
+			nrestart++
+			sut = simnode.New(simnode.Opts{ID: fmt.Sprintf("sut-%s-r%d", uid, nrestart), Disk: disk, GenesisTime: gtime, EditToml: edit})
+			simrt.Settle()
+			time.Sleep(2 * time.Second)
+			simrt.Settle()
+			ctx.Fault("restart")
+			if string(lastHash(sut)) != string(tipBefore) {
+				// the producer may have added a block of pooled transactions meanwhile; the scan judges it
+				ctx.Probe("tip_moved_across_restart")
+			}
+		case "replaylast":
+			// the last height-bound transaction again: to the pool and/or inside a peer block
+			if lastHeightBound == nil {
+				continue
+			}
+			tx := types.Clone(lastHeightBound).(*types.Transaction)
+			ctx.Probe("offered_bad")
+			ctx.Probe("offered_height_bound_replay")
+			if op.Int(0)%2 == 0 {
+				_, err := sut.API.SendTx(tx)
+				ctx.Logf("replay of height-bound tx %x to the pool -> %v", tx.Hash()[:4], err)
+				simrt.Settle()
+			}
+			if op.Int(0) >= 1 {
+				adopt()
+				if tip := tipBuilt(); tip != nil {
+					nextID++
+					if b := w.BuildRaw(nextID, tip.ID, 0, maxI64(1, time.Now().Unix()-tip.Block.BlockTime), []*types.Transaction{tx}); b != nil {
+						ok, msg := Deliver(sut, b.Block, 0, "peerA")
+						ctx.Logf("peer block with the height-bound replay h=%d ok=%v %s", b.Height, ok, msg)
+					}
+				}
+			}
 		case "peerblk":
 			adopt()
 			tip := tipBuilt()
@@ -309,15 +377,24 @@ func (txEngine) run(ctx *simrt.Ctx) *simrt.Violation {
 			sent = append(sent, txs...)
 			// a peer's block usually also carries transactions this node already
 			// has in its own pool (the node then skips re-verifying those)
-			if mp, err := sut.API.GetMempool(&types.ReqGetMempool{}); err == nil && len(mp.Txs) > 0 && op.Int(1)%3 != 0 {
+			poison := op.Int(0)
+			if mp, err := sut.API.GetMempool(&types.ReqGetMempool{}); err == nil && len(mp.Txs) > 0 && (op.Int(1)%3 != 0 || poison == 4) {
 				for j, t := range mp.Txs {
 					if j < 2 {
+						if poison == 4 && j == 0 && t.Signature != nil && len(t.Signature.Signature) > 2 && t.GroupCount == 0 {
+							// the pooled transaction, but with a signature that does not verify
+							t = types.Clone(t).(*types.Transaction)
+							sg := append([]byte(nil), t.Signature.Signature...)
+							sg[len(sg)-2] ^= 0x04
+							t.Signature.Signature = sg
+							ctx.Probe("offered_bad")
+							ctx.Probe("peer_block_with_pooled_tx_resigned")
+						}
 						txs = append(txs, t)
 						ctx.Probe("peer_block_shares_pool_tx")
 					}
 				}
 			}
-			poison := op.Int(0)
 			if poison == 1 && len(tip.Chain()) > 0 { // replay a transaction that is on this branch
 				c := tip.Chain()
 				b := c[int(op.Int(1))%len(c)]
